@@ -263,6 +263,8 @@ class StmtMixin:
             s, idx = self.ev1(tgt.slice, st)
             if not isinstance(base, VListRef):
                 raise Unsupported("subscript store on non-list")
+            if st.is_frozen(base):
+                raise Unsupported("subscript store into a list held in a read-only dict")
             l = st.lists[base.lid]
             i = self.num(idx)
             self._node = tgt
@@ -447,7 +449,13 @@ class StmtMixin:
                     self.assumptions.add("`with <file>:` runs its body and then only closes the file")
                     continue
             raise Unsupported("with statement other than warnings.catch_warnings() / an open file")
-        yield from self.exec_block(node.body, st)
+        files = tuple(v.t for item in node.items if item.optional_vars is None
+                      for v in [self.ev1(item.context_expr, st)[1]] if isinstance(v, VObj) and v.classes == ('TextIO',))
+        before = st.notes.get('with_files', ())
+        st.notes['with_files'] = before + files          # the files whose `with` block is being executed (contract text may ask which)
+        for s2, flow in self.exec_block(node.body, st):
+            s2.notes['with_files'] = before
+            yield s2, flow
 
     def ex_Break(self, node, st):
         yield st, ('break',)
